@@ -73,6 +73,8 @@ def run():
         for x in recs:
             if x.get("ev") == "addfail":
                 v.fail("addvalue-error", x)
+            if x.get("ev") == "hang":       # the driver's watchdog: concurrent calls that never return
+                v.fail("hang", x)
         conc = [x for x in recs if x.get("ev") in CONC or x.get("ev") == "reset"]
         lines = validate(v, acc, "TraceConc", "TraceConc.cfg", CONCCFG, "trace_conc.ndjson", conc, classify_conc, "happens-before on hook events")
         acc.traces += sum(1 for x in conc if x.get("ev") == "reset")
